@@ -1390,6 +1390,20 @@ def call_ext(interp, dotted: str, args: List[V], kwargs: Dict[str, V], node, cc)
             r = call_method(interp, args[0], "ravel", [], {}, node, None)
             return r if r is not None else Term("ravel", [args[0]])
         return args[0]
+    if d == "numpy.cumsum" and len(args) == 1 and not kwargs:
+        x = args[0]
+        if isinstance(x, ObjV) and x.ext == "ndarray":
+            x = ndarray_value(interp, x)
+        if isinstance(x, Grid) and x.ndim == 1 and len(x.dims[0]) == 1 and isinstance(x.elem, Num):
+            # running sum of a one-dimensional array: element t is  sum_{j <= t} x[j]  (kept as a closed `psum` over a bound index)
+            t_idx, ext = x.dims[0][0]
+            j = interp.fresh_idx("j")
+            body = x.elem.p.subs({t_idx: Poly.atom(j)})
+            return Grid(x.dims, Num(Poly.app("psum", Poly.atom(j), body, Poly.atom(t_idx) + 1)))
+        if isinstance(x, Grid) and x.ndim == 1 and len(x.dims[0]) == 1 and not contains_top(x):
+            # element of another form (e.g. piecewise): the running sum is kept opaque but exact - it is identified by the summed array
+            t_idx, ext = x.dims[0][0]
+            return Grid(x.dims, Num(Poly.app("psum_of", vstr(subst(x.elem, {t_idx: Poly.atom(("idx", "_"))}))[:400], Poly.atom(t_idx) + 1)))
     if d in ("numpy.cross", "numpy.dot", "numpy.outer", "numpy.matmul", "numpy.multiply", "numpy.divide", "numpy.kron",
              "numpy.vstack", "numpy.diag", "numpy.eye", "numpy.clip", "numpy.linalg.inv", "numpy.linalg.matrix_rank",
              "numpy.diagonal", "numpy.cumsum", "numpy.squeeze", "numpy.transpose", "numpy.argpartition",
